@@ -155,7 +155,7 @@ def main(tier, replay=None):
         chk.oblige("build:delta-with-hooks", False, out[-2000:])
         return chk.finish()
     vlib.build_native()
-    vlib.standard_proof_obligations(chk, "PropC08", gen_names=["vte"])
+    vlib.standard_proof_obligations(chk, "PropC08", gen_names=["vte", "ingest"])
     ok, out = vlib.build_vmodel()
     if not ok:
         chk.oblige("build:vmodel", False, out[-2000:])
